@@ -217,7 +217,7 @@ func (p *eparser) impl() Expr {
 		return &EBin{"==>", l, r}
 	}
 	if p.accept("<==>") {
-		r := p.or()
+		r := p.expr()
 		return &EBin{"<==>", l, r}
 	}
 	return l
